@@ -116,6 +116,13 @@ impl<'a> GraphLexer<'a> {
                 Some(l) => {
                     if g.leaves[l].variant.is_none() {
                         self.skips.push((self.token_start, self.token_end, l));
+                        // the fuel bounds one attempt: a skip that consumed input starts a fresh one (every attempt may read
+                        // to the end of the source before falling back to a one-char skip); an empty skip is what never ends
+                        if self.token_end == self.token_start {
+                            self.stuck = true;
+                            return None;
+                        }
+                        fuel = 4 * (len + 4) + 64;
                         self.token_start = self.token_end;
                         offset = self.token_start;
                         ctx = None;
